@@ -256,18 +256,20 @@ class Registry:
         self.flow = {}
         self.jview = {}
 
-    def id_of_plain(self, p):
+    def id_of_plain(self, p, bit=0):
+        """2 * (data class) + bit: the root style of a document is not a function of its data,
+        and the glue tests it, so it is part of the identifier; dumps are compared by data class."""
         k = repr(p)
         if k not in self.ids:
             self.ids[k] = len(self.ids)
-        return self.ids[k]
+        return 2 * self.ids[k] + (1 if bit else 0)
 
-    def add(self, data):
-        i = self.id_of_plain(plain(data))
-        return i
+    def add(self, data, bit=0):
+        return self.id_of_plain(plain(data), bit)
 
     def lookup_plain(self, p):
-        return self.ids.get(repr(p))
+        c = self.ids.get(repr(p))
+        return None if c is None else 2 * c
 
 
 def json_view(data):
@@ -322,15 +324,16 @@ def raw_load_one(name, stdin_text):
         return None, mro_names(e)
 
 
-def rawload_sx(reg, docs, fail):
-    return "(raw %s %s)" % (LST(I(reg.add(d)) for d in docs), OPT(fail, lambda m: LST(hexs(c) for c in m)))
+def rawload_sx(reg, docs, fail, bit=None):
+    return "(raw %s %s)" % (LST(I(reg.add(d, bit(d) if bit else 0)) for d in docs),
+                            OPT(fail, lambda m: LST(hexs(c) for c in m)))
 
 
-def source_sx(reg, name, stdin_text, keep=None):
+def source_sx(reg, name, stdin_text, keep=None, bit=None):
     docs, fail = raw_load_all(name, stdin_text)
     if keep is not None:
         keep[name] = (docs, fail)
-    return "(src %s %s %s)" % (hexs(name), B(os.path.isfile(name)), rawload_sx(reg, docs, fail))
+    return "(src %s %s %s)" % (hexs(name), B(os.path.isfile(name)), rawload_sx(reg, docs, fail, bit))
 
 
 EMPTY_SRC = "(src s2d false (raw () none))"
@@ -732,14 +735,22 @@ def exec_diff(case, ns):
                               binary=ns.eyaml, publickey=ns.publickey, privatekey=ns.privatekey)
                 diff.compare_to(rd)
                 acts = []
+                ents = []
                 for e in diff.get_report():
                     e.pathsep = ns.pathsep
                     e.verbose = ns.verbose or ns.debug
-                    texts.append(str(e))
-                    acts.append({DiffActions.ADD: "add", DiffActions.CHANGE: "change", DiffActions.DELETE: "delete",
-                                 DiffActions.SAME: "same"}[e.action])
+                    act = {DiffActions.ADD: "add", DiffActions.CHANGE: "change", DiffActions.DELETE: "delete",
+                           DiffActions.SAME: "same"}[e.action]
+                    try:
+                        texts.append(str(e))
+                        ents.append("(%s renders)" % act)
+                    except (Exception, RecursionError) as x:  # noqa
+                        texts.append(None)
+                        ents.append("(%s (raises %s))" % (act, ufam(x)))
+                        facts["unrenderable"] = True
+                    acts.append(act)
                 facts["actions"] = acts
-                report_sx = "(ok %s)" % LST(acts)
+                report_sx = "(ok %s)" % LST(ents)
             except (Exception, RecursionError) as e:  # noqa
                 facts["raised"] = e
                 report_sx = "(raise %s)" % ufam(e)
@@ -775,7 +786,7 @@ def exec_diff(case, ns):
             continue
         best = None
         for i, t in enumerate(texts):
-            if rest.startswith(t + "\n") and (best is None or len(t) > len(texts[best])
+            if t is not None and rest.startswith(t + "\n") and (best is None or len(t) > len(texts[best])
                                               or (len(t) == len(texts[best]) and best in used and i not in used)):
                 if best is None or len(t) > len(texts[best]) or i not in used:
                     best = i
@@ -813,6 +824,8 @@ def judge_diff(case, f):
     if f["actions"] is None:
         return None if st != 0 else "yaml-diff exited 0 without comparing two documents"
     if isinstance(st, tuple):
+        if f.get("unrenderable"):
+            return None       # library: str() of a diff entry raises (outside the generators' intent)
         return "yaml-diff ended in an uncaught %s" % type(st[1]).__name__
     if ns.quiet and (ns.same or ns.onlysame):
         return None if st == 1 else "yaml-diff accepted --quiet with --same/--onlysame"
@@ -937,7 +950,7 @@ def exec_merge(case, ns):
     from yamlpath.merger import Merger
     stdin = case.get("stdin")
     reg = Registry()
-    estr = reg.add("")
+    estr = reg.add("", 1)
     target = ns.overwrite or ns.output or ""
     ext = ""
     if target:
@@ -949,19 +962,21 @@ def exec_merge(case, ns):
         hexs(ns.overwrite or ""), B(bool(ns.overwrite) and os.path.exists(ns.overwrite)),
         B(ns.backup), ns.document_format, ns.multi_doc_mode, hexs(ext))
     keep = {}
-    srcs = [source_sx(reg, f, stdin, keep) for f in ns.yaml_files]
+    mbit = lambda d: (not hasattr(d, "fa")) or bool(d.fa.flow_style())  # noqa
+    srcs = [source_sx(reg, f, stdin, keep, mbit) for f in ns.yaml_files]
     consumed = any(f == "-" for f in ns.yaml_files)
-    stdin_src = source_sx(reg, "-", stdin, keep) if (stdin is not None and not consumed) else EMPTY_SRC
+    stdin_src = source_sx(reg, "-", stdin, keep, mbit) if (stdin is not None and not consumed) else EMPTY_SRC
     flow = {}
     jview = {}
 
     def note(data):
-        i = reg.add(data)
+        bit = (not hasattr(data, "fa")) or bool(data.fa.flow_style())
+        i = reg.add(data, bit)
         if i not in flow:
-            flow[i] = (not hasattr(data, "fa")) or bool(data.fa.flow_style())
+            flow[i] = bit
             try:
                 jv = json_view(data)
-                j = reg.id_of_plain(plain(jv))
+                j = reg.id_of_plain(plain(jv), 1)
                 jview[i] = j
                 flow.setdefault(j, True)
                 jview.setdefault(j, j)
@@ -981,6 +996,7 @@ def exec_merge(case, ns):
     def spy(self, rhs):
         l = note(self.data)
         r = note(rhs)
+        r -= r & 1
         # a document that changed between two of its own merges was changed through nodes it
         # shares with another document: "documents are values" does not hold for this run
         if id(self) in last_state and last_state[id(self)][1] != l:
@@ -1033,8 +1049,8 @@ def judge_merge(case, f):
     from yamlpath.merger import Merger, MergerConfig
     ns, st = f["ns"], f["status"]
     if f["aliasing"]:
-        return ("library: yaml-merge -M %s merged one RHS document into several LHS documents by reference; a later "
-                "merge then changed a bystander document or never returned (%s)"
+        return ("library: yaml-merge -M %s: Merger.merge_with worked on nodes shared by reference; a merge changed a "
+                "bystander document or never returned (%s)"
                 % (ns.multi_doc_mode, ",".join(sorted(set(f["aliasing"])))))
     if ns.multi_doc_mode != "condense_all" or ns.config or isinstance(st, tuple):
         return None
@@ -1118,8 +1134,9 @@ def exec_set(case, ns0):
     flow = {}
 
     def note(data):
-        i = reg.add(data)
-        flow[i] = bool(hasattr(data, "fa") and data.fa.flow_style())
+        bit = bool(hasattr(data, "fa") and data.fa.flow_style())
+        i = reg.add(data, bit)
+        flow[i] = bit
         return i
     data, fail = raw_load_one(file_eff, stdin)
     facts = {"ns": ns0, "file": file_eff, "stream": stream, "loaded": fail is None, "final": None,
@@ -1493,10 +1510,22 @@ def run_script(case, facts):
         env = dict(os.environ)
         env["PYTHONPATH"] = os.environ.get("YP_REPO", "/repo")
         stdin = case.get("stdin")
-        p = subprocess.run([os.path.join("/venv/bin", SCRIPTS[case["tool"]])] + list(case["argv"]), cwd=d, env=env,
-                           input=(stdin.encode("utf-8") if stdin is not None else None),
-                           stdin=(subprocess.DEVNULL if stdin is None else None),
-                           stdout=subprocess.PIPE, stderr=subprocess.PIPE, timeout=120)
+        cmd = [os.path.join("/venv/bin", SCRIPTS[case["tool"]])] + list(case["argv"])
+        if stdin is not None:
+            p = subprocess.run(cmd, cwd=d, env=env, input=stdin.encode("utf-8"),
+                               stdout=subprocess.PIPE, stderr=subprocess.PIPE, timeout=120)
+        else:
+            # "no STDIN document" means a terminal: give the script a pseudo-terminal nobody writes to
+            # (never for a command line that names "-": it would wait for the terminal)
+            if any(x.strip() == "-" for x in case["argv"]):
+                return None
+            m, sl = os.openpty()
+            try:
+                p = subprocess.run(cmd, cwd=d, env=env, stdin=sl, stdout=subprocess.PIPE, stderr=subprocess.PIPE,
+                                   timeout=120)
+            finally:
+                os.close(m)
+                os.close(sl)
         return {"rc": p.returncode, "stdout": p.stdout.decode("utf-8", "replace")}
     except Exception as e:  # noqa
         return {"rc": "error:" + type(e).__name__, "stdout": ""}
